@@ -25,3 +25,5 @@ def run(chk):
     X.rule_state_clone_deep(chk, "C05.11")
     from .c10 import rule_type_copy
     rule_type_copy(chk, "C05.12")
+    from .c06 import rule_exception_capture
+    rule_exception_capture(chk, "C05.13")
